@@ -166,7 +166,24 @@ def check_style_precedence(ctx):
   ctx.check(guarded, "PRI-style", f"{ref.qualname}|referential styling does not override nested styling", ctx.where(ref.module, ref.node), "guarded by has_style",
             "referential styling overwrites values that nested styling already set")
   st = ix.func(f"{EL}:StyleElement.from_xml")
-  nested_guard = any(isinstance(g, ast.If) and "region_style is None" in unparse(g.test) for g in own_nodes(st.node))
+  # every set_style in the nested-styling function runs only when the element has no value for that property yet
+  # (`get_style(p) is None` directly or through a local, or `not has_style(p)`)
+  from ..rules import match as _m
+
+  def unset_test(t, pol, recv, prop):
+    t = _m.inline_locals_deep(st.node, t)
+    isnone = _m.is_none_test(t, lambda x: isinstance(x, ast.Call) and isinstance(x.func, ast.Attribute) and x.func.attr == "get_style"
+                             and unparse(x.func.value) == recv and x.args and unparse(x.args[0]) == prop)
+    if isnone is not None:
+      return isnone == pol
+    neg = False
+    while isinstance(t, ast.UnaryOp) and isinstance(t.op, ast.Not):
+      neg, t = not neg, t.operand
+    if isinstance(t, ast.Call) and isinstance(t.func, ast.Attribute) and t.func.attr == "has_style" and unparse(t.func.value) == recv and t.args and unparse(t.args[0]) == prop:
+      return pol == neg
+    return False
+  sets = [c for c in own_nodes(st.node) if isinstance(c, ast.Call) and isinstance(c.func, ast.Attribute) and c.func.attr == "set_style" and len(c.args) == 2]
+  nested_guard = bool(sets) and all(any(unset_test(t, pol, unparse(c.func.value), unparse(c.args[0])) for t, pol in _m.enclosing_conditions(c, st.node)) for c in sets)
   ctx.check(nested_guard, "PRI-style", f"{st.qualname}|nested styling keeps earlier nested values", ctx.where(st.module, st.node), "guarded by `is None`", "nested styling overwrites earlier values")
   mc = ix.func(f"{EL}:StylingElement.ParsingContext.merge_chained_styles")
   t = unparse(mc.node)
@@ -402,4 +419,5 @@ def run(ctx):
   ctx.floor("NUL-arith", "arithmetic uses of optional temporal fields", na, 4)
   check_timing_arithmetic(ctx)
   lint.falsy_numeric_default(ctx, common.mods(ctx, ["ttconv.imsc.attributes", "ttconv.imsc.utils", "ttconv.imsc.style_properties", "ttconv.utils"]))
+  common.check_item_handlers(ctx, ["ttconv.imsc.reader", "ttconv.imsc.elements", "ttconv.imsc.attributes", "ttconv.imsc.utils", "ttconv.imsc.style_properties", "ttconv.utils"])
   common.check_history_independence(ctx, ["ttconv.imsc.reader", "ttconv.imsc.elements", "ttconv.imsc.attributes", "ttconv.imsc.utils", "ttconv.imsc.style_properties", "ttconv.imsc.namespaces", "ttconv.utils", "ttconv.model", "ttconv.style_properties"])
